@@ -103,6 +103,9 @@ def states(tier, seed):
         if pto == 3 and (q2 not in (10.0, 1e5) or k in ("g1",)):
             continue
         out.append({"rel": "S4", "kind": k, "heavyness": h, "scheme": "ZM-VFNS", "pto": pto, "Q2": q2, "process": proc, "pol": pol})
+    # S3 for the charged-current cross sections: sigma(nubar) on the charge-conjugated PDFs = sigma(nu) (xF3 and its y_- coefficient both change sign)
+    for k, sc, ckm, pair in itertools.product(["XSFPFCC", "XSCHORUSCC", "XSNUTEVCC", "XSHERACC"], ["ZM-VFNS", "FFNS3"], ["dense", "pdg"], ["nu", "e"]):
+        out.append({"rel": "S3", "kind": k, "heavyness": "total", "scheme": sc, "pto": 1, "Q2": 30.0, "ckm": ckm, "pair": pair})
     # S4 for charged currents: with a CKM matrix whose rows (and columns) are equal, active quarks of the same type are interchangeable in massless schemes
     for k, h, pto, q2, pr in itertools.product(["F2", "FL", "F3"], ["light", "total"], [0, 1, 2], [2.0, 10.0, 30.0, 1e5], ["neutrino", "antineutrino", "electron", "positron"]):
         if pr in ("electron", "positron") and (pto == 2 or q2 in (2.0, 30.0)):
@@ -121,7 +124,8 @@ def _run(cell, st):
     c = {"scheme": st["scheme"], "pto": st["pto"]}
     c.update(cell)
     c.update(st.get("xtra", {}))  # top-level keys only (tmc, target): never collides with the relation's own obscard/theory entries
-    return rel.try_run(c, {name: [cards.kin(x, st["Q2"]) for x in XS]}), name
+    y = 0.4 if st["kind"].startswith("XS") else None
+    return rel.try_run(c, {name: [cards.kin(x, st["Q2"], y) for x in XS]}), name
 
 
 def _triv(status, n):
